@@ -266,7 +266,10 @@ func (e *Evaluator) evalComponentStmt(node *ast.ComponentStmt, env *object.Env) 
 				return val
 			}
 
-			newEnv.Set(key, val)
+			err := newEnv.Set(key, val)
+			if err != nil {
+				return e.newError(node, "%s", err.Error())
+			}
 		}
 	}
 
